@@ -272,6 +272,27 @@ theorem fstreePut_retry_path_safe : ∀ tmpdir ∈ [["R", "tmp"], ["X"], ["R", "
     vview (run worldNested t) destF = some (.file (written exChunks), []) := by
   decide +kernel
 
+/-- (resource folder exists, old state, HTTP request fails, body fails) -/
+def fetchConfigs : List (Bool × Option Inode × Bool × Bool) :=
+  [(false, none, false, false), (true, none, false, false), (true, some exOldFile, false, false),
+   (true, some exOldFile, true, false), (true, some exOldFile, false, true), (false, none, false, true)]
+
+def fetchOld (cfg : Bool × Option Inode × Bool × Bool) : Obs := if cfg.1 then worldOld cfg.2.1 else none
+
+/-- updater.fetchFile (unsigned) as run by DownloadUpdates: folder creation through EnsureAbsPath, temp file in
+    the registry's tmp dir, failing request, truncated body, CloseAtomicallyReplace, chmod after the rename —
+    for every failure pattern and stopping point only the old state or the complete download is visible. -/
+theorem fetchFile_explored : ∀ cfg ∈ fetchConfigs,
+    checkAll destF (fetchOld cfg) (some (.file (written exChunks), [])) exTmp
+      (fetchFileP [(["R"], 0o755), (["R", "dst"], 0o755)] ["R", "tmp"] destF exChunks cfg.2.2.1 cfg.2.2.2)
+      (chkInit (worldFetch cfg.1 cfg.2.1) destF (fetchOld cfg) (some (.file (written exChunks), []))) 0 = true := by
+  have h : fetchConfigs.all (fun cfg =>
+      checkAll destF (fetchOld cfg) (some (.file (written exChunks), [])) exTmp
+        (fetchFileP [(["R"], 0o755), (["R", "dst"], 0o755)] ["R", "tmp"] destF exChunks cfg.2.2.1 cfg.2.2.2)
+        (chkInit (worldFetch cfg.1 cfg.2.1) destF (fetchOld cfg) (some (.file (written exChunks), []))) 0) = true := by
+    decide +kernel
+  exact fun cfg hc => List.all_eq_true.1 h cfg hc
+
 /-- renameio.Symlink over an absent destination, an existing symlink and an existing regular file. -/
 theorem symlink_explored : ∀ old ∈ [none, some exOldLink, some exOldFile],
     checkAll destF (worldOld old) (some (.symlink "new-target", [])) exTmp (symlinkP "new-target" destF)
